@@ -6,7 +6,7 @@ CONSTANTS
   OneHitEnc = TRUE
   ScoreNone = FALSE
   HeapTakeover = 10
-  MaxCalls = 3
+  MaxCalls = 2
   NTerms = 3
   Family = "flat"
   DropK1 = FALSE
